@@ -1829,7 +1829,9 @@ def gen_c11(tier, seed):
                     g = "G2" if (shape == "indep" and n == "C") else "G1"
                     is_src = not any(c == n for _, c in edges)
                     strat = [(rt[n], CPU1)]
-                    if n == "A" and mix == "new":
+                    if n == "A" and mix in ("new", "scheduled"):
+                        # (a SCHEDULED parent with a second, slower strategy: an earlier invocation chose the fast one, this
+                        # invocation may re-plan it with the slow one - seed C11-5)
                         strat = [(rt[n], CPU1), (alt, CPU1)]
                     if n == "A" and mix in ("running", "run+sched", "both-running"):
                         full = rt[n] + 3
@@ -1856,6 +1858,10 @@ def gen_c11(tier, seed):
                         ("tetri_gurobi", {"enforce_deadlines": True, "release_taskgraphs": True,
                                           "lookahead": 30, "plan_ahead": hor}),
                         ("z3", {"release_taskgraphs": True, "lookahead": 30})]
+                if mix in ("scheduled", "run+sched", "sched+sched"):
+                    # TetriSched-Gurobi retracts by default: also the non-retracting mode, where a SCHEDULED task stays a
+                    # decision variable of the model (seed C11-5)
+                    opts.append(("tetri_gurobi", {"enforce_deadlines": True, "release_taskgraphs": True, "lookahead": 30, "plan_ahead": hor, "retract_schedules": False}))
                 if tier != "quick" and vi < 3:
                     opts += [("ilp", {"enforce_deadlines": False, "goal": "max_slack", "lookahead": 30}),
                              ("ilp", {"enforce_deadlines": True, "release_taskgraphs": True,
